@@ -1,0 +1,924 @@
+//! `tcploop` adapter: the REAL `TcpConnection::start` event loop behind the line protocol.
+//!
+//! One case = one loopback TCP connection, noise + yamux negotiated on both ends by the real
+//! `TcpConnection::negotiate_connection`. The local end becomes a real `TcpConnection` with a real
+//! `ProtocolSet` whose protocol receivers and manager receiver are owned by the adapter; the remote
+//! end stays a raw noise+yamux connection that opens substreams and sends (parts of) the
+//! multistream-select negotiation when the operations say so, and answers substreams opened by
+//! the local end according to a policy.
+//!
+//! Nothing is spawned: the `start()` future, the remote connection driver and every remote script
+//! are futures owned by the adapter and polled by hand with flag wakers from inside
+//! `Runtime::block_on` (the tokio reactor and timers are available). The local loop is polled ONLY by
+//! `run` (and `arrange_race`), so an operation sequence decides what is ready when `select!` looks.
+//!
+//! Quiescence is detected, not timed: an operation is finished when no owned future has been woken
+//! after a reactor turn AND nothing is in flight on the TCP connection (bytes sent by one socket ==
+//! bytes received by the other and nothing unsent, read through `getsockopt(TCP_INFO)` on dup'ed
+//! descriptors). A generous deadline (10 s) guards the wait; hitting it is the distinct observation
+//! `stuck`. Wall-clock values are never compared.
+//!
+//! Operations:
+//! `conn ka=<Y|N>.. [remote=accept|refuse|stall]` | `run` | `downgrade <i>` | `upgrade <i>` |
+//! `drop_handle <i>` | `local_open <i>` | `force_close <i>` | `remote_open <j|x> hdr|full` |
+//! `remote_continue <k> <j|x>` | `remote_reset <k>` | `remote_close` | `remote_goaway` |
+//! `remote_policy <p>` |
+//! `drop_sub <i>` | `pause <i>` | `resume <i>` | `drop_rx <i>` | `arrange_race <k>`.
+//!
+//! Observation after every operation:
+//! `<ret> loop=<run|ok|err> acc=<inbound streams accepted> strong=<y|n|-> p0=<msgs> .. m=<msgs>`
+//! where `<msgs>` are the messages the protocol / the manager received during this operation, in
+//! order (`E` established, `C` closed, `Oi`/`Oo` substream opened inbound/outbound, `X` open failure,
+//! `-` none, `x` receiver dropped) and `strong` tells whether the command channel still has a strong
+//! sender (`-` once the loop has returned).
+
+use super::{NegotiatedConnection, TcpConnection};
+use crate::{
+    codec::ProtocolCodec,
+    config::Role,
+    crypto::noise::verif_c01::key,
+    multistream_select::listener_select_proto,
+    protocol::{
+        verif_tcploop_handle::ConnectionHandle, Direction, InnerTransportEvent, ProtocolSet,
+        SubstreamKeepAlive,
+    },
+    substream::Substream,
+    transport::{
+        common::listener::AddressType,
+        manager::{ProtocolContext, TransportManagerEvent},
+    },
+    types::{protocol::ProtocolName, ConnectionId, SubstreamId},
+    verif::VerifBox,
+    BandwidthSink,
+};
+
+use futures::{AsyncWriteExt, StreamExt};
+use tokio::{
+    net::{TcpListener, TcpStream},
+    sync::mpsc::{channel, error::TryRecvError, Receiver},
+};
+
+use std::{
+    collections::HashMap,
+    future::Future,
+    os::fd::AsRawFd,
+    pin::Pin,
+    sync::{
+        atomic::{AtomicBool, AtomicUsize, Ordering},
+        Arc, Mutex,
+    },
+    task::{Context, Poll, Wake, Waker},
+    time::{Duration, Instant},
+};
+
+const DEADLINE: Duration = Duration::from_secs(10);
+const MAX_PROTOCOLS: usize = 4;
+
+struct FlagWaker(AtomicBool);
+
+impl Wake for FlagWaker {
+    fn wake(self: Arc<Self>) {
+        self.0.store(true, Ordering::SeqCst);
+    }
+    fn wake_by_ref(self: &Arc<Self>) {
+        self.0.store(true, Ordering::SeqCst);
+    }
+}
+
+/// A future owned and polled by the adapter.
+struct Job {
+    fut: Option<Pin<Box<dyn Future<Output = ()>>>>,
+    flag: Arc<FlagWaker>,
+    local: bool,
+}
+
+impl Job {
+    fn new(local: bool, fut: impl Future<Output = ()> + 'static) -> Self {
+        Self {
+            fut: Some(Box::pin(tokio::task::unconstrained(fut))),
+            flag: Arc::new(FlagWaker(AtomicBool::new(true))),
+            local,
+        }
+    }
+}
+
+/// Counters of one TCP socket (`struct tcp_info`, Linux).
+#[derive(Clone, Copy, Debug, Default)]
+struct TcpInfo {
+    state: u8,
+    notsent: u32,
+    received: u64,
+    /// Bytes handed to the network for the first time.
+    sent: u64,
+}
+
+fn tcp_info(socket: &std::net::TcpStream) -> Option<TcpInfo> {
+    let mut buf = [0u8; 256];
+    let mut len: libc::socklen_t = buf.len() as libc::socklen_t;
+    // SAFETY: `buf` is a writable buffer of `len` bytes, the descriptor is owned by `socket`.
+    let rc = unsafe {
+        libc::getsockopt(
+            socket.as_raw_fd(),
+            libc::IPPROTO_TCP,
+            libc::TCP_INFO,
+            buf.as_mut_ptr() as *mut libc::c_void,
+            &mut len,
+        )
+    };
+    if rc != 0 || (len as usize) < 216 {
+        return None;
+    }
+    let u32_at = |o: usize| u32::from_ne_bytes(buf[o..o + 4].try_into().expect("4 bytes"));
+    let u64_at = |o: usize| u64::from_ne_bytes(buf[o..o + 8].try_into().expect("8 bytes"));
+    Some(TcpInfo {
+        state: buf[0],
+        notsent: u32_at(144),
+        received: u64_at(128),
+        // retransmitted bytes (spurious timeouts happen under load) are counted in both
+        sent: u64_at(200).saturating_sub(u64_at(208)),
+    })
+}
+
+fn proto_name(i: usize) -> ProtocolName {
+    ProtocolName::from(format!("/tl/{i}"))
+}
+
+fn wire_name(token: &str) -> Option<String> {
+    match token {
+        "x" => Some("/tl/x".to_string()),
+        t => t.parse::<usize>().ok().filter(|i| *i < MAX_PROTOCOLS).map(|i| format!("/tl/{i}")),
+    }
+}
+
+const MSS_HEADER: &[u8] = b"\x13/multistream/1.0.0\n";
+
+fn mss_proposal(name: &str) -> Vec<u8> {
+    let mut out = vec![(name.len() + 1) as u8];
+    out.extend_from_slice(name.as_bytes());
+    out.push(b'\n');
+    out
+}
+
+#[derive(Clone, Copy, PartialEq, Eq)]
+enum Policy {
+    Accept,
+    Refuse,
+    Stall,
+}
+
+struct Proto {
+    rx: Option<Receiver<InnerTransportEvent>>,
+    ka: SubstreamKeepAlive,
+    handle: Option<ConnectionHandle>,
+    subs: Vec<Substream>,
+    paused: bool,
+    /// Messages received during the current operation.
+    seen: Vec<&'static str>,
+}
+
+type YStream = crate::yamux::Stream;
+
+/// The raw remote endpoint.
+struct Remote {
+    control: crate::yamux::Control,
+    /// Substreams the remote opened, by index.
+    streams: Arc<Mutex<HashMap<usize, YStream>>>,
+    opened: usize,
+    /// Substreams the local end opened, as delivered by the remote's connection driver.
+    inbound: Arc<Mutex<Vec<YStream>>>,
+    /// What became of them (kept so that they stay open).
+    kept: Arc<Mutex<Vec<Box<dyn std::any::Any>>>>,
+    socket: std::net::TcpStream,
+}
+
+struct Conn {
+    jobs: Vec<Job>,
+    exit: Arc<Mutex<Option<bool>>>,
+    counter: Arc<AtomicUsize>,
+    protos: Vec<Proto>,
+    mgr_rx: Receiver<TransportManagerEvent>,
+    mgr_seen: Vec<&'static str>,
+    probe: Option<ConnectionHandle>,
+    remote: Option<Remote>,
+    policy: Policy,
+    local_socket: std::net::TcpStream,
+    /// `sent(remote) - received(local)` and `sent(local) - received(remote)` when idle.
+    base: (i128, i128),
+    next_sid: usize,
+    stuck: bool,
+}
+
+/// Loopback TCP connection with noise and yamux negotiated on both ends.
+async fn pair(
+    id: usize,
+) -> Option<(NegotiatedConnection, NegotiatedConnection, std::net::TcpStream, std::net::TcpStream)> {
+    let listener = TcpListener::bind("127.0.0.1:0").await.ok()?;
+    let address = listener.local_addr().ok()?;
+    let (dialer, accepted) = tokio::join!(TcpStream::connect(address), listener.accept());
+    let (dialer, (accepted, _)) = (dialer.ok()?, accepted.ok()?);
+    let dup = |stream: TcpStream| -> Option<(TcpStream, std::net::TcpStream)> {
+        stream.set_nodelay(true).ok()?;
+        let std_stream = stream.into_std().ok()?;
+        let dup = std_stream.try_clone().ok()?;
+        Some((TcpStream::from_std(std_stream).ok()?, dup))
+    };
+    let (accepted, local_socket) = dup(accepted)?;
+    let (dialer, remote_socket) = dup(dialer)?;
+    let timeout = Duration::from_secs(3600);
+    let (local, remote) = tokio::join!(
+        TcpConnection::negotiate_connection(
+            accepted,
+            None,
+            ConnectionId::from(id),
+            key(1),
+            Role::Listener,
+            AddressType::Socket(address),
+            Default::default(),
+            crate::crypto::noise::MAX_READ_AHEAD_FACTOR,
+            crate::crypto::noise::MAX_WRITE_BUFFER_SIZE,
+            timeout,
+        ),
+        TcpConnection::negotiate_connection(
+            dialer,
+            None,
+            ConnectionId::from(id),
+            key(2),
+            Role::Dialer,
+            AddressType::Socket(address),
+            Default::default(),
+            crate::crypto::noise::MAX_READ_AHEAD_FACTOR,
+            crate::crypto::noise::MAX_WRITE_BUFFER_SIZE,
+            timeout,
+        ),
+    );
+    Some((local.ok()?, remote.ok()?, local_socket, remote_socket))
+}
+
+impl Conn {
+    async fn new(id: usize, kinds: &[SubstreamKeepAlive], policy: Policy) -> Option<Self> {
+        let (local, remote, local_socket, remote_socket) =
+            tokio::time::timeout(DEADLINE, pair(id)).await.ok()??;
+        let connection_id = local.connection_id();
+        let peer = local.peer();
+        let endpoint = local.endpoint();
+
+        let (mgr_tx, mgr_rx) = channel(64);
+        let mut protos = Vec::new();
+        let mut contexts = HashMap::new();
+        for (i, ka) in kinds.iter().enumerate() {
+            let (tx, rx) = channel(64);
+            contexts.insert(
+                proto_name(i),
+                ProtocolContext {
+                    tx,
+                    codec: ProtocolCodec::Identity(32),
+                    fallback_names: Vec::new(),
+                    keep_alive: *ka,
+                },
+            );
+            protos.push(Proto {
+                rx: Some(rx),
+                ka: *ka,
+                handle: None,
+                subs: Vec::new(),
+                paused: false,
+                seen: Vec::new(),
+            });
+        }
+        let counter = Arc::new(AtomicUsize::new(0));
+        let mut protocol_set = ProtocolSet::new(connection_id, mgr_tx, counter.clone(), contexts);
+        protocol_set.report_connection_established(peer, endpoint).await.ok()?;
+        let connection =
+            TcpConnection::new(local, protocol_set, BandwidthSink::new(), counter.clone());
+
+        let exit = Arc::new(Mutex::new(None));
+        let mut jobs = Vec::new();
+        {
+            let exit = exit.clone();
+            jobs.push(Job::new(true, async move {
+                let result = connection.start().await;
+                *exit.lock().expect("lock") = Some(result.is_ok());
+            }));
+        }
+
+        let NegotiatedConnection {
+            connection: mut remote_connection,
+            control,
+            ..
+        } = remote;
+        let inbound = Arc::new(Mutex::new(Vec::new()));
+        {
+            let inbound = inbound.clone();
+            jobs.push(Job::new(false, async move {
+                while let Some(Ok(stream)) = remote_connection.next().await {
+                    inbound.lock().expect("lock").push(stream);
+                }
+            }));
+        }
+
+        let mut conn = Self {
+            jobs,
+            exit,
+            counter,
+            protos,
+            mgr_rx,
+            mgr_seen: Vec::new(),
+            probe: None,
+            remote: Some(Remote {
+                control,
+                streams: Arc::new(Mutex::new(HashMap::new())),
+                opened: 0,
+                inbound,
+                kept: Arc::new(Mutex::new(Vec::new())),
+                socket: remote_socket,
+            }),
+            policy,
+            local_socket,
+            base: (0, 0),
+            next_sid: 0,
+            stuck: false,
+        };
+        // both ends are idle after the handshake: remember the counter offsets
+        if let Some((a, b)) = conn.in_flight_raw() {
+            conn.base = (a, b);
+        }
+        conn.drain();
+        conn.probe = conn.protos.iter().find_map(|p| p.handle.clone()).map(|mut h| {
+            h.close();
+            h
+        });
+        Some(conn)
+    }
+
+    fn exited(&self) -> Option<bool> {
+        *self.exit.lock().expect("lock")
+    }
+
+    /// `(sent(remote) - received(local), sent(local) - received(remote))`, plus unsent bytes.
+    fn in_flight_raw(&self) -> Option<(i128, i128)> {
+        let remote = self.remote.as_ref()?;
+        let l = tcp_info(&self.local_socket)?;
+        let r = tcp_info(&remote.socket)?;
+        Some((
+            r.sent as i128 - l.received as i128 + r.notsent as i128,
+            l.sent as i128 - r.received as i128 + l.notsent as i128,
+        ))
+    }
+
+    /// Is anything on its way between the two sockets? `None`: cannot tell.
+    fn in_flight(&self) -> Option<bool> {
+        // a FIN is counted by the receiver only, so "behind" is the only direction that matters
+        self.in_flight_raw().map(|now| now.0 > self.base.0 || now.1 > self.base.1)
+    }
+
+    fn flagged(&self, local: bool) -> bool {
+        self.jobs
+            .iter()
+            .any(|j| j.fut.is_some() && (local || !j.local) && j.flag.0.load(Ordering::SeqCst))
+    }
+
+    /// Poll every woken job (the local loop only if `local`) until none is woken.
+    fn poll_jobs(&mut self, local: bool) {
+        for _ in 0..10_000 {
+            let mut progressed = false;
+            for job in self.jobs.iter_mut() {
+                if job.fut.is_none() || (job.local && !local) {
+                    continue;
+                }
+                if !job.flag.0.swap(false, Ordering::SeqCst) {
+                    continue;
+                }
+                progressed = true;
+                let waker = Waker::from(job.flag.clone());
+                let mut cx = Context::from_waker(&waker);
+                if let Poll::Ready(()) = job.fut.as_mut().expect("checked").as_mut().poll(&mut cx) {
+                    job.fut = None;
+                }
+            }
+            if !progressed {
+                break;
+            }
+        }
+        self.jobs.retain(|j| j.fut.is_some());
+    }
+
+    /// Answer the substreams the local end opened, according to the policy.
+    fn answer_inbound(&mut self) {
+        let Some(remote) = self.remote.as_ref() else { return };
+        let streams: Vec<YStream> = std::mem::take(&mut *remote.inbound.lock().expect("lock"));
+        for stream in streams {
+            let kept = remote.kept.clone();
+            match self.policy {
+                Policy::Stall => kept.lock().expect("lock").push(Box::new(stream)),
+                policy => {
+                    let names: Vec<String> = match policy {
+                        Policy::Accept => (0..MAX_PROTOCOLS).map(|i| format!("/tl/{i}")).collect(),
+                        _ => vec!["/tl/none".to_string()],
+                    };
+                    self.jobs.push(Job::new(false, async move {
+                        let names: Vec<&str> = names.iter().map(|n| n.as_str()).collect();
+                        if let Ok((_, io)) = listener_select_proto(stream, names).await {
+                            kept.lock().expect("lock").push(Box::new(io));
+                        }
+                    }));
+                }
+            }
+        }
+    }
+
+    /// Run to quiescence: every owned future idle after a reactor turn and nothing in flight on
+    /// the TCP connection; `done` is an additional condition to wait for.
+    async fn settle(&mut self, local: bool, done: impl Fn(&Self) -> bool) {
+        let deadline = Instant::now() + DEADLINE;
+        let mut calm = 0usize;
+        let mut blind = 0usize;
+        loop {
+            self.poll_jobs(local);
+            self.answer_inbound();
+            // reactor turn: deliver socket readiness and timer events to the wakers
+            tokio::task::yield_now().await;
+            tokio::task::yield_now().await;
+            if self.flagged(local) {
+                calm = 0;
+                continue;
+            }
+            let flying = match (self.remote.is_some(), self.in_flight()) {
+                // the remote is gone: its FIN has been seen, nothing else can arrive
+                (false, _) => false,
+                (true, Some(flying)) => flying,
+                // cannot tell: fall back to a few spaced rounds
+                (true, None) => {
+                    blind += 1;
+                    blind <= 3
+                }
+            };
+            if !flying && done(self) {
+                calm += 1;
+                // one more reactor turn AFTER having seen the wire empty
+                if calm >= 2 {
+                    break;
+                }
+                continue;
+            }
+            if Instant::now() > deadline {
+                if let Some(path) = std::env::var_os("TCPLOOP_DEBUG") {
+                    use std::io::Write;
+                    let mut file = std::fs::OpenOptions::new().create(true).append(true).open(path).expect("log");
+                    let _ = writeln!(file, "{:?} {:?}", tcp_info(&self.local_socket), self.remote.as_ref().map(|r| tcp_info(&r.socket)));
+                    let _ = writeln!(file, 
+                        "stuck: flying={flying} raw={:?} base={:?} flagged={} done={} jobs={}",
+                        self.in_flight_raw(),
+                        self.base,
+                        self.flagged(local),
+                        done(self),
+                        self.jobs.len()
+                    );
+                }
+                self.stuck = true;
+                break;
+            }
+            calm = if flying { 0 } else { calm + 1 };
+            tokio::time::sleep(Duration::from_millis(1)).await;
+        }
+    }
+
+    /// Protocols (unless paused) and the manager take what is in their channels.
+    fn drain(&mut self) {
+        for proto in self.protos.iter_mut() {
+            if proto.paused {
+                continue;
+            }
+            let Some(rx) = proto.rx.as_mut() else { continue };
+            loop {
+                match rx.try_recv() {
+                    Ok(InnerTransportEvent::ConnectionEstablished { sender, .. }) => {
+                        proto.handle = Some(sender);
+                        proto.seen.push("E");
+                    }
+                    Ok(InnerTransportEvent::ConnectionClosed { .. }) => proto.seen.push("C"),
+                    Ok(InnerTransportEvent::SubstreamOpened {
+                        substream,
+                        direction,
+                        opening_permit,
+                        ..
+                    }) => {
+                        // what `TransportService` does: the opening permit is not needed any more
+                        drop(opening_permit);
+                        proto.subs.push(substream);
+                        proto.seen.push(match direction {
+                            Direction::Inbound => "Oi",
+                            Direction::Outbound(_) => "Oo",
+                        });
+                    }
+                    Ok(InnerTransportEvent::SubstreamOpenFailure { .. }) => proto.seen.push("X"),
+                    Ok(_) => proto.seen.push("?"),
+                    Err(TryRecvError::Empty) | Err(TryRecvError::Disconnected) => break,
+                }
+            }
+        }
+        loop {
+            match self.mgr_rx.try_recv() {
+                Ok(TransportManagerEvent::ConnectionClosed { .. }) => self.mgr_seen.push("C"),
+                Ok(_) => self.mgr_seen.push("?"),
+                Err(_) => break,
+            }
+        }
+    }
+
+    fn observe(&mut self, ret: &str) -> String {
+        self.drain();
+        let state = match self.exited() {
+            None => "run",
+            Some(true) => "ok",
+            Some(false) => "err",
+        };
+        let strong = match (self.exited(), &self.probe) {
+            (Some(_), _) | (_, None) => "-",
+            (None, Some(probe)) =>
+                if probe.try_get_permit().is_some() {
+                    "y"
+                } else {
+                    "n"
+                },
+        };
+        let mut out = format!(
+            "{ret} loop={state} acc={} strong={strong}",
+            self.counter.load(Ordering::SeqCst)
+        );
+        for (i, proto) in self.protos.iter_mut().enumerate() {
+            let seen = std::mem::take(&mut proto.seen);
+            let text = match (&proto.rx, seen.is_empty()) {
+                (None, _) => "x".to_string(),
+                (_, true) => "-".to_string(),
+                (_, false) => seen.join(","),
+            };
+            out.push_str(&format!(" p{i}={text}"));
+        }
+        let seen = std::mem::take(&mut self.mgr_seen);
+        out.push_str(&format!(
+            " m={}",
+            if seen.is_empty() {
+                "-".to_string()
+            } else {
+                seen.join(",")
+            }
+        ));
+        if std::mem::take(&mut self.stuck) {
+            out.push_str(" stuck");
+        }
+        out
+    }
+
+    /// Remote script: open a substream and write `bytes`.
+    fn remote_open(&mut self, bytes: Vec<u8>) -> Option<usize> {
+        let remote = self.remote.as_mut()?;
+        let index = remote.opened;
+        remote.opened += 1;
+        let mut control = remote.control.clone();
+        let streams = remote.streams.clone();
+        self.jobs.push(Job::new(false, async move {
+            if let Ok(mut stream) = control.open_stream().await {
+                let _ = stream.write_all(&bytes).await;
+                let _ = stream.flush().await;
+                streams.lock().expect("lock").insert(index, stream);
+            }
+        }));
+        Some(index)
+    }
+
+    fn remote_write(&mut self, index: usize, bytes: Vec<u8>) -> bool {
+        let Some(remote) = self.remote.as_mut() else { return false };
+        let Some(mut stream) = remote.streams.lock().expect("lock").remove(&index) else {
+            return false;
+        };
+        let streams = remote.streams.clone();
+        self.jobs.push(Job::new(false, async move {
+            let _ = stream.write_all(&bytes).await;
+            let _ = stream.flush().await;
+            streams.lock().expect("lock").insert(index, stream);
+        }));
+        true
+    }
+}
+
+/// The adapter.
+pub struct LoopBox {
+    rt: Arc<tokio::runtime::Runtime>,
+    conn: Option<Conn>,
+    conns: usize,
+}
+
+impl LoopBox {
+    /// New adapter without a connection.
+    pub fn new() -> Self {
+        Self {
+            rt: Arc::new(
+                tokio::runtime::Builder::new_current_thread()
+                    .enable_all()
+                    .build()
+                    .expect("runtime"),
+            ),
+            conn: None,
+            conns: 0,
+        }
+    }
+
+    /// The C07-b1 arrangement on `rounds` fresh connections: a remote substream is waiting in
+    /// the local socket AND the last holder has released the connection before the loop is
+    /// polled for the first time. Which of the two ready branches `select!` takes is its RNG's
+    /// choice, so the observation is the multiset of outcomes.
+    async fn arrange_race(&mut self, rounds: usize) -> String {
+        let mut outcomes: HashMap<String, usize> = HashMap::new();
+        for _ in 0..rounds {
+            self.conns += 1;
+            let Some(mut conn) = Conn::new(self.conns, &[SubstreamKeepAlive::Yes], Policy::Accept).await
+            else {
+                *outcomes.entry("inconclusive".into()).or_default() += 1;
+                continue;
+            };
+            let _ = conn.observe("");
+            conn.remote_open(MSS_HEADER.to_vec());
+            conn.settle(false, |_| true).await;
+            if let Some(handle) = conn.protos[0].handle.as_mut() {
+                handle.close();
+            }
+            conn.settle(true, |c| c.exited().is_some()).await;
+            let text = conn.observe("");
+            let field = |name: &str| {
+                text.split_whitespace()
+                    .find_map(|t| t.strip_prefix(name).map(str::to_string))
+                    .unwrap_or_default()
+            };
+            let mut outcome = format!(
+                "{}/acc{}/p{}/m{}",
+                field("loop="),
+                field("acc="),
+                field("p0="),
+                field("m=")
+            );
+            let stuck = text.ends_with(" stuck");
+            if stuck {
+                outcome.push_str("/stuck");
+            }
+            *outcomes.entry(outcome).or_default() += 1;
+            if stuck {
+                // every further round would wait for the deadline as well
+                break;
+            }
+        }
+        let mut list: Vec<(String, usize)> = outcomes.into_iter().collect();
+        list.sort();
+        list.iter().map(|(o, n)| format!("{o}*{n}")).collect::<Vec<_>>().join(" ")
+    }
+
+    async fn op(&mut self, t: &[&str]) -> String {
+        let index = |s: &str| s.parse::<usize>().ok();
+        if let ["conn", args @ ..] = t {
+            if self.conn.is_some() {
+                return "bad-op".into();
+            }
+            let mut kinds = Vec::new();
+            let mut policy = Policy::Accept;
+            for arg in args {
+                match arg.split_once('=') {
+                    Some(("ka", v)) =>
+                        for ch in v.chars() {
+                            kinds.push(match ch {
+                                'Y' => SubstreamKeepAlive::Yes,
+                                'N' => SubstreamKeepAlive::No,
+                                _ => return "bad-op".into(),
+                            });
+                        },
+                    Some(("remote", "accept")) => policy = Policy::Accept,
+                    Some(("remote", "refuse")) => policy = Policy::Refuse,
+                    Some(("remote", "stall")) => policy = Policy::Stall,
+                    _ => return "bad-op".into(),
+                }
+            }
+            if kinds.is_empty() || kinds.len() > MAX_PROTOCOLS {
+                return "bad-op".into();
+            }
+            self.conns += 1;
+            return match Conn::new(self.conns, &kinds, policy).await {
+                Some(mut conn) => {
+                    let out = conn.observe("ok");
+                    self.conn = Some(conn);
+                    out
+                }
+                None => "inconclusive".into(),
+            };
+        }
+        if let ["arrange_race", k] = t {
+            return match index(k) {
+                Some(k) if k <= 256 => self.arrange_race(k).await,
+                _ => "bad-op".into(),
+            };
+        }
+        let Some(conn) = self.conn.as_mut() else { return "bad-op".into() };
+        let n = conn.protos.len();
+        let ret: String = match t {
+            ["run"] => {
+                conn.settle(true, |_| true).await;
+                "ok".into()
+            }
+            ["downgrade", i] => match index(i).filter(|i| *i < n) {
+                Some(i) => match conn.protos[i].handle.as_mut() {
+                    Some(handle) => {
+                        handle.close();
+                        "ok".into()
+                    }
+                    None => "none".into(),
+                },
+                None => return "bad-op".into(),
+            },
+            ["upgrade", i] => match index(i).filter(|i| *i < n) {
+                Some(i) => match conn.protos[i].handle.as_mut() {
+                    Some(handle) => {
+                        handle.try_upgrade();
+                        if handle.is_active() { "active" } else { "inactive" }.into()
+                    }
+                    None => "none".into(),
+                },
+                None => return "bad-op".into(),
+            },
+            ["drop_handle", i] => match index(i).filter(|i| *i < n) {
+                Some(i) => match conn.protos[i].handle.take() {
+                    Some(_) => "ok".into(),
+                    None => "none".into(),
+                },
+                None => return "bad-op".into(),
+            },
+            ["local_open", i] => match index(i).filter(|i| *i < n) {
+                Some(i) => {
+                    let sid = conn.next_sid;
+                    let ka = conn.protos[i].ka;
+                    match conn.protos[i].handle.as_mut() {
+                        None => "none".into(),
+                        Some(handle) => match handle.try_get_permit() {
+                            None => "closed".into(),
+                            Some(permit) => {
+                                conn.next_sid += 1;
+                                match handle.open_substream(
+                                    proto_name(i),
+                                    Vec::new(),
+                                    SubstreamId::from(1000 + sid),
+                                    permit,
+                                    ka,
+                                ) {
+                                    Ok(()) => "ok".into(),
+                                    Err(crate::error::SubstreamError::ChannelClogged) => "clogged".into(),
+                                    Err(_) => "closed".into(),
+                                }
+                            }
+                        },
+                    }
+                }
+                None => return "bad-op".into(),
+            },
+            ["force_close", i] => match index(i).filter(|i| *i < n) {
+                Some(i) => match conn.protos[i].handle.as_mut() {
+                    None => "none".into(),
+                    Some(handle) => match handle.force_close() {
+                        Ok(()) => "ok".into(),
+                        Err(crate::error::Error::ChannelClogged) => "clogged".into(),
+                        Err(_) => "closed".into(),
+                    },
+                },
+                None => return "bad-op".into(),
+            },
+            ["remote_open", name, how] => {
+                let Some(name) = wire_name(name) else { return "bad-op".into() };
+                let mut bytes = MSS_HEADER.to_vec();
+                match *how {
+                    "hdr" => {}
+                    "full" => bytes.extend(mss_proposal(&name)),
+                    _ => return "bad-op".into(),
+                }
+                match conn.remote_open(bytes) {
+                    Some(k) => {
+                        conn.settle(false, |_| true).await;
+                        format!("s{k}")
+                    }
+                    None => "none".into(),
+                }
+            }
+            ["remote_continue", k, name] => {
+                let (Some(k), Some(name)) = (index(k), wire_name(name)) else {
+                    return "bad-op".into();
+                };
+                if conn.remote_write(k, mss_proposal(&name)) {
+                    conn.settle(false, |_| true).await;
+                    "ok".into()
+                } else {
+                    "none".into()
+                }
+            }
+            ["remote_reset", k] => {
+                let Some(k) = index(k) else { return "bad-op".into() };
+                let stream = conn
+                    .remote
+                    .as_mut()
+                    .and_then(|r| r.streams.lock().expect("lock").remove(&k));
+                match stream {
+                    Some(stream) => {
+                        drop(stream);
+                        conn.settle(false, |_| true).await;
+                        "ok".into()
+                    }
+                    None => "none".into(),
+                }
+            }
+            ["remote_close"] | ["remote_goaway"] => match conn.remote.take() {
+                Some(mut remote) => {
+                    if t[0] == "remote_goaway" {
+                        // graceful: yamux go-away, then the connection driver finishes by itself
+                        conn.remote = Some(remote);
+                        let mut control = conn.remote.as_ref().expect("set").control.clone();
+                        conn.jobs.push(Job::new(false, async move {
+                            let _ = control.close().await;
+                        }));
+                        conn.settle(false, |_| true).await;
+                        remote = conn.remote.take().expect("set");
+                    }
+                    conn.jobs.retain(|j| j.local);
+                    drop(remote);
+                    // the FIN has reached the local socket once it has left `ESTABLISHED`
+                    let deadline = Instant::now() + DEADLINE;
+                    loop {
+                        match tcp_info(&conn.local_socket) {
+                            Some(info) if info.state == 1 && Instant::now() < deadline => {
+                                tokio::time::sleep(Duration::from_millis(1)).await;
+                            }
+                            Some(info) if info.state == 1 => {
+                                conn.stuck = true;
+                                break;
+                            }
+                            _ => break,
+                        }
+                    }
+                    "ok".into()
+                }
+                None => "none".into(),
+            },
+            ["remote_policy", p] => {
+                conn.policy = match *p {
+                    "accept" => Policy::Accept,
+                    "refuse" => Policy::Refuse,
+                    "stall" => Policy::Stall,
+                    _ => return "bad-op".into(),
+                };
+                "ok".into()
+            }
+            ["drop_sub", i] => match index(i).filter(|i| *i < n) {
+                Some(i) =>
+                    if conn.protos[i].subs.is_empty() {
+                        "none".into()
+                    } else {
+                        drop(conn.protos[i].subs.remove(0));
+                        conn.settle(false, |_| true).await;
+                        "ok".into()
+                    },
+                None => return "bad-op".into(),
+            },
+            ["pause", i] | ["resume", i] => match index(i).filter(|i| *i < n) {
+                Some(i) => {
+                    conn.protos[i].paused = t[0] == "pause";
+                    "ok".into()
+                }
+                None => return "bad-op".into(),
+            },
+            ["drop_rx", i] => match index(i).filter(|i| *i < n) {
+                Some(i) => match conn.protos[i].rx.take() {
+                    Some(rx) => {
+                        drop(rx);
+                        conn.protos[i].handle = None;
+                        conn.protos[i].subs.clear();
+                        conn.settle(false, |_| true).await;
+                        "ok".into()
+                    }
+                    None => "none".into(),
+                },
+                None => return "bad-op".into(),
+            },
+            _ => return "bad-op".into(),
+        };
+        conn.observe(&ret)
+    }
+}
+
+impl VerifBox for LoopBox {
+    fn step(&mut self, line: &str) -> String {
+        let t: Vec<&str> = line.split_whitespace().collect();
+        let rt = self.rt.clone();
+        rt.block_on(self.op(&t))
+    }
+}
+
+impl Drop for LoopBox {
+    fn drop(&mut self) {
+        // sockets and timers are deregistered while their runtime still exists
+        let rt = self.rt.clone();
+        let _guard = rt.enter();
+        self.conn = None;
+    }
+}
